@@ -30,6 +30,7 @@ type qFrag struct {
 	Named        string
 	Set          *qSelSet
 	Inapplicable bool
+	UnionSelf    bool // type condition is the enclosing union itself: applies to every member
 }
 
 type qSelSet struct {
@@ -185,6 +186,16 @@ func (g *qGen) selSet(typeName string, depth int, sc *scope, fragBudget int, isR
 				}
 				set.Frags = append(set.Frags, fr)
 			}
+		}
+		if fragBudget > 0 && r.Intn(4) == 0 {
+			// a fragment on the union type itself applies to every member
+			fr, err := g.fragment(typeName, depth, sc, fragBudget-1, allAliased)
+			if err != nil {
+				return nil, err
+			}
+			fr.UnionSelf = true
+			set.Frags = append(set.Frags, fr)
+			g.feats["union_self_fragment"] = true
 		}
 		if r.Intn(12) == 0 {
 			set.Frags = append(set.Frags, g.inapplicable(t))
@@ -365,26 +376,41 @@ const (
 	dmgSubOnLeaf
 	dmgMissingSub
 	dmgUnknownInFragment
+	// one named fragment spread at two places: well-formed for the object type
+	// of the first, ill-formed for the (different) object type of the second,
+	// where the same field name has another kind or another object type.
+	// thunder applies a fragment to whatever object it is spread in.
+	dmgSharedCrossType
+	// one well-formed named fragment spread at two places of the same object
+	// type, one of which carries an ordinary damage next to the spread.
+	dmgSharedSameType
 )
 
 var dmgNames = map[int]string{dmgUnknownField: "unknown_field", dmgSubOnLeaf: "subselection_on_leaf",
-	dmgMissingSub: "missing_subselection", dmgUnknownInFragment: "unknown_field_in_fragment"}
+	dmgMissingSub: "missing_subselection", dmgUnknownInFragment: "unknown_field_in_fragment",
+	dmgSharedCrossType: "shared_fragment_second_use_other_type", dmgSharedSameType: "shared_fragment_same_type_damaged_context"}
 
 // damage names one place of the document (by identity) and what to do there.
 type damage struct {
 	kind    int
+	apply   int      // primitive damage applied at set/field (dmgNone: only spreads/defs)
 	set     *qSelSet // dmgUnknownField, dmgUnknownInFragment
 	field   *qField  // dmgSubOnLeaf, dmgMissingSub
 	variant int
+	spreads map[*qSelSet]string // extra named-fragment spreads appended to these sets
+	defs    string              // extra fragment definitions
 	desc    string
+	note    string // sub-kind for the evidence histogram
 }
 
 // sites lists the places of a document where damage may be applied: every
 // selection set, leaf and composite field outside inapplicable fragments.
 type sites struct {
-	sets   []*qSelSet
-	leaves []*qField
-	comps  []*qField
+	sets      []*qSelSet
+	leaves    []*qField
+	comps     []*qField
+	unionSelf []*qSelSet       // sets inside a fragment on the union type itself
+	post      map[*qSelSet]int // position in thunder's validation walk (post-order: a spread appended to a set is visited after everything else in it)
 }
 
 func (doc *qDoc) named(name string) *qNamed {
@@ -397,32 +423,38 @@ func (doc *qDoc) named(name string) *qNamed {
 }
 
 func (doc *qDoc) sites() *sites {
-	st := &sites{}
-	var walk func(s *qSelSet, applicable bool)
-	walk = func(s *qSelSet, applicable bool) {
+	st := &sites{post: map[*qSelSet]int{}}
+	seen := map[*qSelSet]bool{}
+	var walk func(s *qSelSet, applicable, inSelf bool)
+	walk = func(s *qSelSet, applicable, inSelf bool) {
+		if seen[s] {
+			return
+		}
+		seen[s] = true
 		if applicable {
 			st.sets = append(st.sets, s)
+			if inSelf {
+				st.unionSelf = append(st.unionSelf, s)
+			}
 		}
 		for _, f := range s.Fields {
 			if f.Sub != nil {
 				if applicable {
 					st.comps = append(st.comps, f)
 				}
-				walk(f.Sub, applicable)
+				walk(f.Sub, applicable, false)
 			} else if applicable {
 				st.leaves = append(st.leaves, f)
 			}
 		}
 		for _, fr := range s.Frags {
-			if fr.Named == "" {
-				walk(fr.Set, applicable && !fr.Inapplicable)
-			}
+			// named fragment bodies are walked where they are first spread, as
+			// thunder's validation does
+			walk(fr.Set, applicable && !fr.Inapplicable, inSelf || fr.UnionSelf)
 		}
+		st.post[s] = len(st.post)
 	}
-	walk(doc.Root, true)
-	for _, n := range doc.Named {
-		walk(n.Set, true)
-	}
+	walk(doc.Root, true, false)
 	return st
 }
 
@@ -468,16 +500,16 @@ func (rd *renderer) set(s *qSelSet) {
 		}
 		rd.sb.WriteString(f.Name + f.Args)
 		if f.Sub != nil {
-			if rd.dmg != nil && rd.dmg.kind == dmgMissingSub && rd.dmg.field == f {
-				rd.dmg.desc = fmt.Sprintf("sub-selection of %s.%s (%s) removed", s.Scope, f.Name, f.Type)
+			if rd.dmg != nil && rd.dmg.apply == dmgMissingSub && rd.dmg.field == f {
+				rd.dmg.desc += fmt.Sprintf("sub-selection of %s.%s (%s) removed", s.Scope, f.Name, f.Type)
 				continue
 			}
 			rd.sb.WriteString(" ")
 			rd.set(f.Sub)
-		} else if rd.dmg != nil && rd.dmg.kind == dmgSubOnLeaf && rd.dmg.field == f {
+		} else if rd.dmg != nil && rd.dmg.apply == dmgSubOnLeaf && rd.dmg.field == f {
 			inner := []string{"{ __typename }", "{ zzNoSuchField }", "{ x: __typename }"}[rd.dmg.variant%3]
 			rd.sb.WriteString(" " + inner)
-			rd.dmg.desc = fmt.Sprintf("%s added under leaf %s.%s (%s)", inner, s.Scope, f.Name, f.Type)
+			rd.dmg.desc += fmt.Sprintf("%s added under leaf %s.%s (%s)", inner, s.Scope, f.Name, f.Type)
 		}
 	}
 	for _, fr := range s.Frags {
@@ -489,15 +521,18 @@ func (rd *renderer) set(s *qSelSet) {
 		rd.set(fr.Set)
 	}
 	if rd.dmg != nil && rd.dmg.set == s {
-		switch rd.dmg.kind {
+		switch rd.dmg.apply {
 		case dmgUnknownField:
 			txt := []string{"zzNoSuchField", "zzNoSuchField { __typename }", "zzNoSuchField(x: 1)", "zq: zzNoSuchField"}[rd.dmg.variant%4]
 			rd.sb.WriteString(" " + txt)
-			rd.dmg.desc = fmt.Sprintf("%q added to selection set on %s", txt, s.Scope)
+			rd.dmg.desc += fmt.Sprintf("%q added to selection set on %s", txt, s.Scope)
 		case dmgUnknownInFragment:
 			on := s.Scope
 			if t := rd.a.Types[s.Scope]; t != nil && t.Kind == "UNION" && len(t.possible) > 0 {
 				on = t.possible[(rd.dmg.variant/2)%len(t.possible)]
+				if rd.dmg.variant >= 9 {
+					on = s.Scope // fragment on the union type itself
+				}
 			}
 			if rd.dmg.variant%2 == 0 {
 				rd.sb.WriteString(" ... on " + on + " { zzNoSuchField }")
@@ -505,7 +540,12 @@ func (rd *renderer) set(s *qSelSet) {
 				rd.sb.WriteString(" ...ZZDamage")
 				rd.extraDef = " fragment ZZDamage on " + on + " { zzNoSuchField }"
 			}
-			rd.dmg.desc = fmt.Sprintf("fragment on %s selecting zzNoSuchField added to selection set on %s", on, s.Scope)
+			rd.dmg.desc += fmt.Sprintf("fragment on %s selecting zzNoSuchField added to selection set on %s", on, s.Scope)
+		}
+	}
+	if rd.dmg != nil {
+		if name, ok := rd.dmg.spreads[s]; ok {
+			rd.sb.WriteString(" ..." + name)
 		}
 	}
 	rd.sb.WriteString(" }")
@@ -520,7 +560,7 @@ func render(a *advSchema, doc *qDoc, dmg *damage) string {
 		rd.sb.WriteString(doc.Op + " ")
 	}
 	var skip *qField
-	if dmg != nil && dmg.kind == dmgMissingSub {
+	if dmg != nil && dmg.apply == dmgMissingSub {
 		skip = dmg.field
 	}
 	reach := doc.reachable(skip)
@@ -532,22 +572,165 @@ func render(a *advSchema, doc *qDoc, dmg *damage) string {
 		}
 	}
 	rd.sb.WriteString(rd.extraDef)
+	if dmg != nil {
+		rd.sb.WriteString(dmg.defs)
+	}
 	return rd.sb.String()
 }
 
-func chooseDamage(r *rand.Rand, doc *qDoc) *damage {
+func noRequiredArgs(f *advField) bool {
+	for _, a := range f.Args {
+		if a.Type.Kind == "NON_NULL" {
+			return false
+		}
+	}
+	return true
+}
+
+// crossTypeBody looks for a selection that is well-formed on object type t1
+// and ill-formed on object type t2 although t2 has a field of the same name.
+func crossTypeBody(r *rand.Rand, a *advSchema, t1, t2 *advType) (body, how string) {
+	type cand struct{ body, how string }
+	var cs []cand
+	for _, f1 := range t1.Fields {
+		f2 := t2.fieldByName[f1.Name]
+		if f2 == nil || !noRequiredArgs(f1) || !noRequiredArgs(f2) {
+			continue
+		}
+		c1, err1 := a.composite(f1.Type)
+		c2, err2 := a.composite(f2.Type)
+		if err1 != nil || err2 != nil {
+			continue
+		}
+		switch {
+		case c1 && !c2:
+			cs = append(cs, cand{f1.Name + " { __typename }", "subselection_on_leaf"})
+		case !c1 && c2:
+			cs = append(cs, cand{f1.Name, "missing_subselection"})
+		case c1 && c2:
+			n1, n2 := a.Types[*f1.Type.named().Name], a.Types[*f2.Type.named().Name]
+			if n1 == nil || n2 == nil || n1 == n2 || n1.Kind != "OBJECT" {
+				continue
+			}
+			for _, m := range n1.Fields {
+				mc, err := a.composite(m.Type)
+				if err != nil || mc || !noRequiredArgs(m) {
+					continue
+				}
+				if n2.Kind == "UNION" || n2.fieldByName[m.Name] == nil {
+					cs = append(cs, cand{f1.Name + " { " + m.Name + " }", "unknown_nested_field"})
+					break
+				}
+			}
+		}
+	}
+	if len(cs) == 0 {
+		return "", ""
+	}
+	c := cs[r.Intn(len(cs))]
+	return c.body, c.how
+}
+
+// sharedDamage tries to build one of the two shared-named-fragment damages.
+func sharedDamage(r *rand.Rand, a *advSchema, st *sites, kind int) *damage {
+	var objSets []*qSelSet
+	for _, s := range st.sets {
+		if t := a.Types[s.Scope]; t != nil && t.Kind == "OBJECT" {
+			objSets = append(objSets, s)
+		}
+	}
+	if len(objSets) < 2 {
+		return nil
+	}
+	perm := r.Perm(len(objSets))
+	tries := 0
+	for _, i := range perm {
+		for _, j := range perm {
+			if i == j {
+				continue
+			}
+			if tries++; tries > 60 {
+				return nil
+			}
+			s1, s2 := objSets[i], objSets[j]
+			t1, t2 := a.Types[s1.Scope], a.Types[s2.Scope]
+			order := "damaged_use_visited_second"
+			if st.post[s2] < st.post[s1] {
+				order = "damaged_use_visited_first"
+			}
+			switch kind {
+			case dmgSharedCrossType:
+				if t1 == t2 {
+					continue
+				}
+				body, how := crossTypeBody(r, a, t1, t2)
+				if body == "" {
+					continue
+				}
+				return &damage{kind: kind, apply: dmgNone,
+					spreads: map[*qSelSet]string{s1: "ZZShared", s2: "ZZShared"},
+					defs:    " fragment ZZShared on " + t1.Name + " { zzs: " + body + " }",
+					note:    how + ":" + order,
+					desc:    fmt.Sprintf("fragment ZZShared on %s { zzs: %s } (well-formed there) also spread in a selection set on %s, where it is a %s; %s", t1.Name, body, t2.Name, how, order)}
+			case dmgSharedSameType:
+				if t1 != t2 {
+					continue
+				}
+				body := "zzs: __typename"
+				for _, f := range t1.Fields {
+					if c, err := a.composite(f.Type); err == nil && !c && noRequiredArgs(f) {
+						body = "zzs: " + f.Name
+						break
+					}
+				}
+				d := &damage{kind: kind, set: s2, variant: r.Intn(12),
+					spreads: map[*qSelSet]string{s1: "ZZShared", s2: "ZZShared"},
+					defs:    " fragment ZZShared on " + t1.Name + " { " + body + " }",
+					note:    order,
+					desc:    fmt.Sprintf("well-formed fragment ZZShared on %s { %s } spread in two selection sets on %s; in one of them (%s): ", t1.Name, body, t1.Name, order)}
+				d.apply = []int{dmgUnknownField, dmgUnknownInFragment}[r.Intn(2)]
+				// or damage one of the damaged set's own fields
+				if len(s2.Fields) > 0 && r.Intn(2) == 0 {
+					f := s2.Fields[r.Intn(len(s2.Fields))]
+					d.field, d.set = f, nil
+					if f.Sub != nil {
+						d.apply = dmgMissingSub
+					} else {
+						d.apply = dmgSubOnLeaf
+					}
+				}
+				return d
+			}
+		}
+	}
+	return nil
+}
+
+func chooseDamage(r *rand.Rand, a *advSchema, doc *qDoc) *damage {
 	st := doc.sites()
-	kinds := []int{dmgUnknownField, dmgUnknownInFragment}
+	kinds := []int{dmgUnknownField, dmgUnknownInFragment, dmgSharedCrossType, dmgSharedCrossType, dmgSharedSameType}
 	if len(st.leaves) > 0 {
 		kinds = append(kinds, dmgSubOnLeaf)
 	}
 	if len(st.comps) > 0 {
 		kinds = append(kinds, dmgMissingSub)
 	}
-	d := &damage{kind: kinds[r.Intn(len(kinds))], variant: r.Intn(12)}
+	kind := kinds[r.Intn(len(kinds))]
+	if kind == dmgSharedCrossType || kind == dmgSharedSameType {
+		if d := sharedDamage(r, a, st, kind); d != nil {
+			return d
+		}
+		kind = []int{dmgUnknownField, dmgUnknownInFragment}[r.Intn(2)]
+	}
+	d := &damage{kind: kind, apply: kind, variant: r.Intn(12)}
 	switch d.kind {
 	case dmgUnknownField, dmgUnknownInFragment:
 		d.set = st.sets[r.Intn(len(st.sets))]
+		if len(st.unionSelf) > 0 && r.Intn(3) == 0 {
+			// content of a fragment on the union type itself
+			d.set = st.unionSelf[r.Intn(len(st.unionSelf))]
+			d.note = "inside_union_self_fragment"
+		}
 	case dmgSubOnLeaf:
 		d.field = st.leaves[r.Intn(len(st.leaves))]
 	case dmgMissingSub:
